@@ -3,7 +3,7 @@
    Model: scopes/Machine.v (S machine).  Tie T: ChainGen.v is regenerated from the Python source by
    tools/translate_chain.py on every check; the *_gen_eq theorems below are what breaks when a walk changes. *)
 From AV Require Import Base Machine ChainSpec ChainGen ChainEq ChainFrame ChainThms ChainWalk ChainMono NativeAbsorbed.
-From AV Require Import DeliverInv TreeStep ChainReach ChainWindow DeliverAlive ReceiptWalk ReceiptRun.
+From AV Require Import DeliverInv TreeStep ChainReach ChainWindow DeliverAlive ReceiptWalk ReceiptRun AuditWitness.
 
 (* ---------------- tie T: generated code = specification, for all chains ---------------- *)
 (* a scope record carries r_hosted = `_host_task is not None` (entered, not yet exited).  Since the F42 fix the walks
@@ -371,19 +371,28 @@ Print Assumptions C04_reused_scope_born_cancelled_refuted.
    runs);  up s x n -- the n-th scope above x;  receives s h t org -- running ready handle h makes t receive
    CancelledError tagged with org. *)
 
-(* (a) for every op of every reachable state: a tagged request that a task not affected by the op holds afterwards
-   and did not hold before was placed by a delivery run of its origin, which is cancelled and visible from the task's
-   current scope -- in the state before the op (the delivery ran before any flag changed) or after it *)
+(* Domain: reach_ok s = s is reached from init by an op list satisfying TreeStep.ops_ok (enter/exit only public scopes
+   -- not a group's own or a task-handle scope --, a task finishes only at its base scope, a task is woken only through
+   the future it waits on; nothing else is restricted); op_ok a o is the same clause for one op in state a.
+
+   (a) for every op_ok op of every reachable state: a tagged request newly held after the op by a task the op does not
+   affect implies that its origin is cancelled and visible from the task's current scope (through unshielded,
+   uncancelled scopes) in the state before or in the state after that op.  (The statement does not mention the delivery
+   run; in the proof the request comes from a delivery run of the origin inside the op, which runs either before or
+   after the one flag change an op makes.) *)
 Theorem C04_request_only_by_visible_delivery : forall (a : st) (o : op) (t : tid) (org : sid),
   reach_ok a -> op_ok a o = true -> ~ In t (aff a o) ->
   Held (fst (step a o)) t org -> Held a t org \/ OC a t org \/ OC (fst (step a o)) t org.
 Proof. exact request_only_by_visible_delivery. Qed.
 Print Assumptions C04_request_only_by_visible_delivery.
 
-(* ... and the affected tasks: unless the op was rejected or the resumed task had ended (nothing but the ready queue
-   changes), the acting / resumed task holds no request afterwards, and a task the op creates holds none or one
-   justified in the state after the op (MP: a recorded request and a pending wait exclude each other; it holds in
-   every reachable state, C04_request_excludes_pending_wait) *)
+(* ... and the affected tasks, if they hold a request after the op and have no outcome (k_done = None): either the op
+   was rejected or the resumed task had ended (Same: tasks, scopes, futures unchanged -- at most the ready queue
+   changes), or the request is justified in the state after the op; that second disjunct is an upper bound for a task
+   the op creates, no run in which a created task holds a request is known (a delivery skips a task that has not
+   started).  Hence the acting / resumed task of an accepted op holds no request afterwards.  Hypothesis MP a: a recorded
+   request and a pending wait exclude each other; it holds in every reachable state
+   (C04_request_excludes_pending_wait). *)
 Theorem C04_request_of_affected_task : forall (a : st) (o : op) (t : tid) (org : sid),
   reach_ok a -> op_ok a o = true -> MP a -> In t (aff a o) ->
   Held (fst (step a o)) t org -> k_done (tasks (fst (step a o)) t) = None ->
@@ -398,7 +407,7 @@ Theorem C04_request_excludes_pending_wait : forall (ops : list op) (t : tid) (f 
 Proof. exact request_excludes_pending_wait. Qed.
 Print Assumptions C04_request_excludes_pending_wait.
 
-(* (b) for every op of every reachable state: a task the op does not affect keeps its record up to the cancel counter
+(* (b) for every op_ok op of every reachable state: a task the op does not affect keeps its record up to the cancel counter
    and the request flag (tk_core: so its current scope, its wait, its outcome), the parent link of every entered scope
    is unchanged, and no scope is un-cancelled (shields and deadlines may change: F25) *)
 Theorem C04_suspended_task_frame : forall (a : st) (o : op) (t : tid),
@@ -487,3 +496,64 @@ Theorem C04_receipt_window_without_future_path_refuted :
           exists j y, j < n /\ up s0 x j = Some y /\ s_shield (scopes s0 y) = false /\ s_shield (scopes s1 y) = true)).
 Proof. exact receipt_window_without_future_path_refuted. Qed.
 Print Assumptions C04_receipt_window_without_future_path_refuted.
+
+(* ---------------- non-vacuity of the per-op facts and of the run-level window (audit 2, item 15) ---------------- *)
+(* rw_pre = [ANewRoot; ANewScope 1 None false; AEnter 1 1; ANewScope 1 None false; AEnter 1 2; ASleep 1 None]:
+   task 1 sleeps (future 6) in scope 2 inside scope 1.  rw_ops = rw_pre ++ [AExtCancel 1; ANewRoot]. *)
+
+(* (a) on the op AExtCancel 1: it does not affect task 1; before it task 1 holds no request and scope 1 is not
+   cancelled, after it task 1 holds a request tagged 1 and scope 1 is cancelled and visible from its current scope *)
+Theorem C04_request_only_by_visible_delivery_nonvacuous :
+  let a := final step init rw_pre in
+  let b := fst (step a (AExtCancel 1)) in
+  ops_ok init rw_pre = true /\ op_ok a (AExtCancel 1) = true /\ ~ In 1 (aff a (AExtCancel 1)) /\
+  Held b 1 1 /\ ~ Held a 1 1 /\ ~ OC a 1 1 /\ OC b 1 1.
+Proof. exact request_only_by_visible_delivery_witness. Qed.
+Print Assumptions C04_request_only_by_visible_delivery_nonvacuous.
+
+(* (b) on the same op, for task 1 *)
+Theorem C04_suspended_task_frame_nonvacuous :
+  let a := final step init rw_pre in
+  let b := fst (step a (AExtCancel 1)) in
+  ops_ok init rw_pre = true /\ op_ok a (AExtCancel 1) = true /\ 1 < ntask a /\ ~ In 1 (aff a (AExtCancel 1)) /\
+  k_cur (tasks b 1) = Some 2 /\ k_cur (tasks a 1) = Some 2 /\
+  s_active (scopes a 2) = true /\ s_parent (scopes b 2) = Some 1 /\ s_parent (scopes a 2) = Some 1 /\
+  s_cancelled (scopes a 1) = false /\ s_cancelled (scopes b 1) = true.
+Proof. exact suspended_task_frame_witness. Qed.
+Print Assumptions C04_suspended_task_frame_nonvacuous.
+
+(* the affected-task theorem, Same disjunct: task 1, holding the request and not yet run, tries AYield 1; the op is
+   rejected and changes nothing *)
+Theorem C04_request_of_affected_task_nonvacuous :
+  let a := final step init (rw_pre ++ [AExtCancel 1]) in
+  ops_ok init (rw_pre ++ [AExtCancel 1]) = true /\ op_ok a (AYield 1) = true /\ MP a /\ In 1 (aff a (AYield 1)) /\
+  Held (fst (step a (AYield 1))) 1 1 /\ k_done (tasks (fst (step a (AYield 1))) 1) = None /\
+  Same a (fst (step a (AYield 1))).
+Proof. exact request_of_affected_task_witness. Qed.
+Print Assumptions C04_request_of_affected_task_nonvacuous.
+
+(* _must_cancel set while the task still has a waiter: F19's history up to the native request (7 ops); the future is
+   not pending (the scope's delivery cancelled it) *)
+Theorem C04_request_excludes_pending_wait_nonvacuous :
+  let s := final step init (firstn 7 f19_ops) in
+  ops_ok init (firstn 7 f19_ops) = true /\
+  k_must (tasks s 1) = true /\ k_waiter (tasks s 1) = Some 4 /\ f_st (futs s 4) = FCanc 2.
+Proof. exact request_excludes_pending_wait_witness. Qed.
+Print Assumptions C04_request_excludes_pending_wait_nonvacuous.
+
+(* the run-level window on rw_ops: the receipt of task 1 is a request (the future was cancelled, it carries no
+   exception: first disjunct false); second disjunct with the non-trivial prefix rw_pre ++ [AExtCancel 1] (7 of 8 ops),
+   x = 2, n = 1, org = 1, and the walk at receipt still finds the cancelled scope *)
+Theorem C04_receipt_visible_unless_shield_raised_nonvacuous :
+  let pre := rw_pre ++ [AExtCancel 1] in let post := [ANewRoot] in
+  let s0 := final step init pre in let s1 := final step init rw_ops in
+  ops_ok init rw_ops = true /\ receives s1 (HWake 1 6) 1 1 /\
+  snd (step s1 (ARun (HWake 1 6))) = RExc (ECancel 2) /\
+  f_st (futs s1 6) = FCanc 2 /\
+  rw_ops = pre ++ post /\
+  k_cur (tasks s0 1) = Some 2 /\ k_cur (tasks s1 1) = Some 2 /\ up s0 2 1 = Some 1 /\
+  s_cancelled (scopes s0 1) = true /\
+  (forall j y, j < 1 -> up s0 2 j = Some y -> s_cancelled (scopes s0 y) = false /\ s_shield (scopes s0 y) = false) /\
+  eff_cancelled s1 2 = true.
+Proof. exact receipt_window_witness. Qed.
+Print Assumptions C04_receipt_visible_unless_shield_raised_nonvacuous.
